@@ -24,25 +24,31 @@ import (
 var errVsymTransient = errors.New("vsym: transient failure")
 
 type vsymC33World struct {
-	segs      []discovery.SegmentRef
-	recs      map[string][]decoder.Record
-	offs      []int64 // offset of record i (record i carries Key = {i})
-	part      []int32
-	written   []bool
-	committed map[int32]int64
-	hasCommit map[int32]bool
-	budget    int
-	calls     int
-	cycleBad  bool // something failed in the current polling cycle
-	cycles    int
-	leased    int32
-	hasLease  bool
-	persist   bool
+	segs        []discovery.SegmentRef
+	recs        map[string][]decoder.Record
+	offs        []int64 // offset of record i (record i carries Key = {i})
+	part        []int32
+	written     []bool
+	committed   map[int32]int64
+	hasCommit   map[int32]bool
+	budget      int
+	calls       int
+	cycleBad    bool // something failed in the current polling cycle
+	cycles      int
+	leased      int32
+	hasLease    bool
+	persist     bool
+	renewFaults bool // lease renewals may fail (the worker then loses its lease and claims again)
+	renewals    bool // the harness also fires the lease-renewal ticker between polls
+	lostOnce    bool
+	takenBy     int32 // partition held by another worker after the lease was lost (-1: none)
 }
 
 func (w *vsymC33World) fault(what string) bool {
 	w.calls++
-	if w.budget > 0 && vsym_Bool("fault") {
+	// (one sequence of fault bits per kind of call: a native run that makes a few more calls of
+	// one kind than the executor did then still gives every call the same verdict)
+	if w.budget > 0 && vsym_Bool("fault-"+what) {
 		w.budget--
 		w.cycleBad = true
 		return true
@@ -107,10 +113,25 @@ func (s vsymC33Store) ClaimLease(ctx context.Context, topic string, partition in
 	if s.w.fault("claim") {
 		return checkpoint.Lease{}, errVsymTransient
 	}
+	if s.w.lostOnce && partition == s.w.takenBy {
+		// after this worker lost its lease another worker holds that partition: not a transient
+		// failure, the worker moves on to the next partition
+		return checkpoint.Lease{}, errVsymTransient
+	}
 	s.w.leased, s.w.hasLease = partition, true
 	return checkpoint.Lease{Topic: topic, Partition: partition, OwnerID: ownerID}, nil
 }
-func (s vsymC33Store) RenewLease(ctx context.Context, lease checkpoint.Lease) error { return nil }
+func (s vsymC33Store) RenewLease(ctx context.Context, lease checkpoint.Lease) error {
+	if s.w.renewFaults && s.w.fault("renew") {
+		s.w.lostOnce = true
+		s.w.takenBy = -1
+		if vsym_Bool("another-worker-takes-the-partition") {
+			s.w.takenBy = lease.Partition
+		}
+		return errVsymTransient
+	}
+	return nil
+}
 func (s vsymC33Store) ReleaseLease(ctx context.Context, lease checkpoint.Lease) error {
 	return nil
 }
@@ -201,10 +222,18 @@ func vsymC33Drive(w *vsymC33World, p *Processor, cycles int) {
 		defer close(done)
 		_ = p.Run(ctx)
 	})
+	vsym_SettleMillis(150)
 	vsym_Settle()
 	for c := 0; c < cycles; c++ {
-		vsym_FireTimer(0, 5000)
+		vsym_FireTimer(0, 0)
+		seen := c + 1
+		vsym_Await(func() bool { return w.cycles >= seen }) // (natively: the real ticker's next tick)
 		vsym_Settle()
+		if w.renewals && w.hasLease && vsym_Bool("renewal-fires") {
+			// the lease-renewal ticker (created when the lease was claimed) fires between polls
+			vsym_FireTimer(-1, 0)
+			vsym_Settle()
+		}
 	}
 	cancel()
 	<-done
